@@ -4,6 +4,41 @@ use crate::{GenerateConfig, TypeStructure};
 use serde::{Deserialize, Serialize};
 use serde_rename_rule::RenameRule;
 
+/// Words that cannot name a function in an ES module (reserved words, `arguments`, `eval`) although
+/// they are legal Rust function names
+const JS_RESERVED_WORDS: [&str; 30] = [
+    "case",
+    "catch",
+    "class",
+    "debugger",
+    "default",
+    "delete",
+    "do",
+    "export",
+    "extends",
+    "finally",
+    "function",
+    "import",
+    "instanceof",
+    "new",
+    "null",
+    "switch",
+    "this",
+    "throw",
+    "typeof",
+    "var",
+    "void",
+    "with",
+    "implements",
+    "interface",
+    "package",
+    "private",
+    "protected",
+    "public",
+    "arguments",
+    "eval",
+];
+
 /// Trait for contexts that provide naming convention functionality
 pub trait NamingContext {
     /// Get the config reference
@@ -127,7 +162,14 @@ pub trait NamingContext {
     fn compute_function_name(&self, name: &str, _rename_all: &Option<RenameRule>) -> String {
         // Always use TypeScript conventions (camelCase for functions)
         // Command-level rename_all doesn't affect the function name
-        self.apply_naming_convention(name, RenameRule::CamelCase)
+        let function_name = self.apply_naming_convention(name, RenameRule::CamelCase);
+
+        // A legal Rust function name can be a reserved word of JavaScript (`delete`, `new`)
+        if JS_RESERVED_WORDS.contains(&function_name.as_str()) {
+            format!("{}_", function_name)
+        } else {
+            function_name
+        }
     }
 
     /// Compute the TypeScript type name (PascalCase)
